@@ -69,6 +69,14 @@ pub mod synth {
     pub struct Charge {}
 
     #[quantity]
+    #[ref_unit(Quart, "Q", "reference unit without SI prefix")]
+    #[unit(Milliquart, "mQ", MILLI, 0.001)]
+    #[unit(Dozen_Quart, "dzQ", 12)]
+    #[unit(Kiloquart, "kQ", KILO, 1000)]
+    /// the reference unit carries no SI prefix although other units do: every unit is eligible for fitting
+    pub struct Bucket {}
+
+    #[quantity]
     #[ref_unit(Grain, "gr", NONE, "reference unit")]
     #[unit(Milligrain, "mgr", MILLI, 0.001)]
     #[unit(Scruple, "sc", 20)]
@@ -113,3 +121,4 @@ PRESSURE = QtySpec("crate", "synth", "Pressure", "Pascal", [
 PRESSURE.decl = ['Centibar', 'Pieze', 'Inch_Mercury', 'Atmosphere', 'Bar', 'Technical_Atmosphere', 'Foot_Water', 'Newton_per_Square_Millimeter', 'Megapascal', 'Gigapascal', 'Millimeter_Mercury', 'Pascal', 'Pound_per_Square_Inch', 'Decibar', 'Newton_per_Square_Meter', 'Micropascal', 'Barye', 'Millibar', 'Kip_per_Square_Inch', 'Hectopascal', 'Joule_per_Cubic_Meter', 'Torr', 'Kilopascal', 'Millipascal']
 CHARGE = QtySpec("crate", "synth", "Charge", "Coulomb", [U("Coulomb", "C", "NONE", 1), U("Attocoulomb", "aC", "ATTO", F(1, 10 ** 18)),
                                                          U("Dozen_Attocoulomb", "daC", None, F(24, 10 ** 18)), U("Decifemtocoulomb", "dfC", None, F(1, 10 ** 16)), U("Femtocoulomb", "fC", "FEMTO", F(1, 10 ** 15))])
+BUCKET = QtySpec("crate", "synth", "Bucket", "Quart", [U("Quart", "Q", None, 1), U("Milliquart", "mQ", "MILLI", F(1, 1000)), U("Dozen_Quart", "dzQ", None, 12), U("Kiloquart", "kQ", "KILO", 1000)])
